@@ -377,6 +377,10 @@ def verify_many(spec: Spec, keys, axioms, timeout_ms=10000, procs=16, pid=None) 
                 results[k].dropped = sorted(dropped[k])
         finally:
             pool.terminate()
+            try:
+                os.unlink(os.path.join(os.environ.get('PYVC_TMP', '/var/tmp'), 'open_clauses.%d' % os.getpid()))   # the workers' shared note
+            except OSError:
+                pass
     return [results[k] for k in keys]
 
 
